@@ -155,31 +155,11 @@ def _prepare(spec):
 
 
 def _tag(spec, diffs, mods=None):
-    """role for signatures (from the request): does the module contain a block that is zero-sized on input, and does an
-    insertion of this request land exactly at its address (directly, or once the deletions of the request are applied)?"""
-    blocks = [b for s in spec["sections"] for b in s["blocks"]]
-    zi = next((j for j, b in enumerate(blocks) if not b["i"]), None)
-    role = "plain"
-    if zi is not None:
-        role = "zero-sized-block"
-        for m in mods or ():
-            if m["op"] not in ("ins", "rep"):
-                continue
-            j = next(i for i, b in enumerate(blocks) if b["n"] == m["b"])
-            n = len(blocks[j]["i"])
-            gone = set()
-            for d in mods:
-                if d["op"] in ("del", "rep") and d["b"] == m["b"]:
-                    gone |= set(range(d["k"], d["k"] + d.get("n", 0)))
-            if j == zi or (j == zi + 1 and all(i in gone for i in range(m["k"]))) or (j == zi - 1 and all(i in gone for i in range(m["k"], n))):
-                role = "insertion-at-zero-sized-block"
+    """role for signatures, computed from the request (scen.zero_block_role)"""
+    role = scen.zero_block_role(spec, mods)
     for d in diffs:
         d["r_shape"] = role
     return diffs
-
-
-def _strip(a):
-    return {k: v for k, v in a.items() if k != "pn"}
 
 
 def run_dump(spec, mods):
